@@ -121,6 +121,11 @@ func c02Suffixes() []seqDef {
 		sq("inE().has(eq($._data.p,2)).in()", q.InE().Has(cond("EQ", "$._data.p", 2.0)).In()),
 		sq("as(a).out().has(eq($a._data.p,1)).count()", q.As("a").Out().Has(cond("EQ", "$a._data.p", 1.0)).Count()),
 		{"bothE().as(e).both().render($e._data)", with(q.BothE().As("e").Both(), renderStmt("$e._data"))},
+		// aggregations that read a field of an earlier (edge) step through a mark
+		{"outE().as(e).out().aggregate(type($e.p))", q.OutE().As("e").Out().Aggregate([]*gripql.Aggregate{{Name: "y", Aggregation: &gripql.Aggregate_Type{Type: &gripql.TypeAggregation{Field: "$e.p"}}}}).Statements},
+		{"outE().as(e).out().aggregate(term($e.p),count)", q.OutE().As("e").Out().Aggregate([]*gripql.Aggregate{{Name: "t", Aggregation: &gripql.Aggregate_Term{Term: &gripql.TermAggregation{Field: "$e.p"}}}, {Name: "c", Aggregation: &gripql.Aggregate_Count{Count: &gripql.CountAggregation{}}}}).Statements},
+		{"inE().as(e).in().aggregate(field($e._data),histogram($e.p))", q.InE().As("e").In().Aggregate([]*gripql.Aggregate{{Name: "f", Aggregation: &gripql.Aggregate_Field{Field: &gripql.FieldAggregation{Field: "$e._data"}}}, {Name: "h", Aggregation: &gripql.Aggregate_Histogram{Histogram: &gripql.HistogramAggregation{Field: "$e.p", Interval: 1}}}}).Statements},
+		{"as(a).out().aggregate(type($a.p),term(p))", q.As("a").Out().Aggregate([]*gripql.Aggregate{{Name: "y", Aggregation: &gripql.Aggregate_Type{Type: &gripql.TypeAggregation{Field: "$a.p"}}}, {Name: "t", Aggregation: &gripql.Aggregate_Term{Term: &gripql.TermAggregation{Field: "p"}}}}).Statements},
 	}
 }
 
